@@ -59,6 +59,8 @@ def near_misses(pw, rnd, thorough):
             res.append((lab, w))
     return res
 
+FLAVOURS = {"quick": ["release", "ovf"], "thorough": ["release", "ovf"]}
+
 
 def jobs(tier, seed):
     out = []
